@@ -294,18 +294,20 @@ theorem eachOffset_ok {d : ArrayData} {offs : List Nat} {large : Bool} {limit : 
         · simp at h
         · split at h
           · simp at h
-          · rw [errIf_ok] at h
-            simp only [Bool.not_eq_false'] at h
-            rw [allBelow_iff] at h
-            intro i hi
-            have := h i hi
-            unfold offsetPairOk
-            split at this
-            · rename_i a b ha hb
-              simp only [Bool.and_eq_true, decide_eq_true_eq] at this
-              rw [ha, hb]
-              refine ⟨by simpa using this.1, a, b, rfl, rfl, this.1.1, by omega, this.1.2.1, this.1.2.2, this.2⟩
-            · simp at this
+          · split at h
+            · simp at h
+            · rw [errIf_ok] at h
+              simp only [Bool.not_eq_false'] at h
+              rw [allBelow_iff] at h
+              intro i hi
+              have := h i hi
+              unfold offsetPairOk
+              split at this
+              · rename_i a b ha hb
+                simp only [Bool.and_eq_true, decide_eq_true_eq] at this
+                rw [ha, hb]
+                refine ⟨by simpa using this.1, a, b, rfl, rfl, this.1.1, by omega, this.1.2.1, this.1.2.2, this.2⟩
+              · simp at this
 
 
 
@@ -453,6 +455,167 @@ theorem validate_struct_parts {d : ArrayData} {fields : Fields}
   have := h.2.1
   rw [andThen_ok, errIf_ok] at this
   exact ⟨by simpa using this.1, this.2⟩
+
+
+
+theorem readLE_isSome : ∀ (w : Nat) (bs : List Nat) (pos : Nat), pos + w ≤ bs.length →
+    ∃ v, readLE bs pos w = some v
+  | 0, _, _, _ => ⟨0, rfl⟩
+  | w + 1, bs, pos, h => by
+    obtain ⟨r, hr⟩ := readLE_isSome w bs (pos + 1) (by omega)
+    have hb : pos < bs.length := by omega
+    refine ⟨bs[pos] % 256 + 256 * r, ?_⟩
+    simp [readLE, hr, List.getElem?_eq_getElem hb]
+
+theorem readInt_isSome {bs : List Nat} {w : Nat} {signed : Bool} {i : Nat} (hw : 0 < w)
+    (h : i < bs.length / w) : ∃ v, readInt bs w signed i = some v := by
+  have h2 : (i + 1) * w ≤ bs.length := by
+    have := Nat.div_mul_le_self bs.length w
+    have : (i + 1) * w ≤ bs.length / w * w := Nat.mul_le_mul_right w h
+    omega
+  obtain ⟨v, hv⟩ := readLE_isSome w bs (i * w) (by rw [Nat.add_mul] at h2; omega)
+  exact ⟨if signed then toSigned w v else (v : Int), by simp [readInt, hv]⟩
+
+/-- entry `i` of the scalar view is the checked read at `i` -/
+theorem scalarEntries_get {bs : List Nat} {w : Nat} {signed : Bool} (hw : 0 < w) :
+    (scalarEntries bs w signed).length = bs.length / w ∧
+    ∀ i, i < bs.length / w → (scalarEntries bs w signed)[i]? = readInt bs w signed i := by
+  unfold scalarEntries
+  have hall : ∀ i, i < bs.length / w → ∃ v, readInt bs w signed i = some v :=
+    fun i hi => readInt_isSome hw hi
+  generalize bs.length / w = n at hall
+  have key : ∀ n, (∀ i, i < n → ∃ v, readInt bs w signed i = some v) →
+      ((List.range n).filterMap (readInt bs w signed)).length = n ∧
+      ∀ i, i < n → ((List.range n).filterMap (readInt bs w signed))[i]? = readInt bs w signed i := by
+    intro n
+    induction n with
+    | zero => intro _; exact ⟨rfl, fun i hi => by omega⟩
+    | succ n ih =>
+      intro hn
+      obtain ⟨hl, hg⟩ := ih (fun i hi => hn i (by omega))
+      obtain ⟨v, hv⟩ := hn n (by omega)
+      rw [List.range_succ, List.filterMap_append]
+      simp only [List.filterMap_cons, hv, List.filterMap_nil, List.length_append, hl, List.length_singleton]
+      refine ⟨trivial, fun i hi => ?_⟩
+      by_cases hin : i < n
+      · rw [List.getElem?_append_left (by omega)]; exact hg i hin
+      · have : i = n := by omega
+        subst this
+        rw [List.getElem?_append_right (by omega)]
+        simp [hl, hv]
+  exact key n hall
+
+/-- adjacent monotonicity gives every adjacent pair -/
+theorem monotoneAdj_get : ∀ (es : List Int), monotoneAdj es = true →
+    ∀ (i : Nat) (a b : Int), es[i]? = some a → es[i + 1]? = some b → a ≤ b
+  | [], _, i, a, b, h, _ => by simp at h
+  | [_], _, i, a, b, _, h2 => by simp at h2
+  | x :: y :: rest, hm, i, a, b, h1, h2 => by
+    simp only [monotoneAdj, Bool.and_eq_true, decide_eq_true_eq] at hm
+    cases i with
+    | zero => simp at h1 h2; omega
+    | succ i => exact monotoneAdj_get (y :: rest) hm.2 i a b (by simpa using h1) (by simpa using h2)
+
+/-- in a monotone list every entry lies between the first and the last -/
+theorem monotoneAdj_bounds : ∀ (es : List Int), monotoneAdj es = true →
+    ∀ (i : Nat) (a : Int), es[i]? = some a → es.headD 0 ≤ a ∧ a ≤ es.getLastD 0
+  | [], _, i, a, h => by simp at h
+  | [x], _, i, a, h => by
+    cases i with
+    | zero => simp at h; subst h; simp
+    | succ i => simp at h
+  | x :: y :: rest, hm, i, a, h => by
+    simp only [monotoneAdj, Bool.and_eq_true, decide_eq_true_eq] at hm
+    have ih := monotoneAdj_bounds (y :: rest) hm.2
+    have hl : (x :: y :: rest).getLastD 0 = (y :: rest).getLastD 0 := rfl
+    rw [hl]
+    cases i with
+    | zero =>
+      simp at h; subst h
+      have := (ih 0 y (by simp)).2
+      exact ⟨by simp, by omega⟩
+    | succ i =>
+      have := ih i a (by simpa using h)
+      simp only [List.headD_cons] at this ⊢
+      exact ⟨by omega, this.2⟩
+
+
+
+/-- validity handed to a typed constructor: `NullBuffer::new(BooleanBuffer::new(buf, 0, len))`
+(the null count is computed) -/
+def typedNulls (d : ArrayData) : Option Nulls :=
+  d.nulls.map (fun n => (⟨n.bytes, 0, d.len, countNulls n.bytes 0 d.len⟩ : Nulls))
+
+theorem isCharBoundary_le {data : List Nat} {i : Nat} (h : isCharBoundary data i = true) : i ≤ data.length := by
+  unfold isCharBoundary at h
+  simp only [Bool.or_eq_true, beq_iff_eq] at h
+  rcases h with (h | h) | h
+  · omega
+  · omega
+  · split at h
+    · rename_i b hb
+      have := (List.getElem?_eq_some_iff.mp hb).1
+      omega
+    · simp at h
+
+theorem offW_pos (l : Bool) : 0 < offW l := by cases l <;> simp [offW]
+
+
+
+theorem filter_length_eq {α} (p : α → Bool) : ∀ (l : List α), (l.filter p).length = l.length → ∀ x, x ∈ l → p x = true
+  | [], _, x, hx => by simp at hx
+  | a :: l, h, x, hx => by
+    have hle := List.length_filter_le p l
+    by_cases hp : p a = true
+    · simp only [List.filter_cons, hp, if_true, List.length_cons, Nat.add_right_cancel_iff] at h
+      rcases List.mem_cons.mp hx with rfl | hx'
+      · exact hp
+      · exact filter_length_eq p l h x hx'
+    · simp only [List.filter_cons, hp, List.length_cons] at h
+      simp at h
+      omega
+
+
+
+/-- what `OffsetBuffer::new` establishes about the checked reads of the offsets buffer -/
+theorem offsetBufferNew_pairs {offs : List Nat} {large : Bool}
+    (h1 : offsetBufferNew (scalarEntries offs (offW large) true) = .ok) :
+    (scalarEntries offs (offW large) true).length = offs.length / offW large ∧
+    1 ≤ offs.length / offW large ∧
+    ∀ i, i < offs.length / offW large - 1 →
+      ∃ a b : Int, readInt offs (offW large) true i = some a ∧ readInt offs (offW large) true (i + 1) = some b ∧
+        0 ≤ a ∧ a ≤ b ∧ b ≤ (scalarEntries offs (offW large) true).getLastD 0 := by
+  have hw := offW_pos large
+  obtain ⟨hlen, hget⟩ := scalarEntries_get (bs := offs) (w := offW large) (signed := true) hw
+  generalize hes : scalarEntries offs (offW large) true = es at *
+  have hne : es ≠ [] ∧ 0 ≤ es.headD 0 ∧ monotoneAdj es = true := by
+    unfold offsetBufferNew at h1
+    rcases es with _ | ⟨e0, rest⟩
+    · simp at h1
+    · simp only at h1
+      split at h1
+      · simp at h1
+      · split at h1
+        · rename_i h0 hm; exact ⟨by simp, by simpa using h0, hm⟩
+        · simp at h1
+  obtain ⟨hne, hfirst, hmono⟩ := hne
+  have hn1 : 1 ≤ offs.length / offW large := by
+    rw [← hlen]; cases es with
+    | nil => exact absurd rfl hne
+    | cons _ _ => simp
+  refine ⟨hlen, hn1, ?_⟩
+  intro i hi
+  obtain ⟨a, ha⟩ := readInt_isSome (bs := offs) (signed := true) hw (show i < offs.length / offW large by omega)
+  obtain ⟨b, hb'⟩ := readInt_isSome (bs := offs) (signed := true) hw (show i + 1 < offs.length / offW large by omega)
+  have ga : es[i]? = some a := by rw [hget i (by omega)]; exact ha
+  have gb : es[i + 1]? = some b := by rw [hget (i + 1) (by omega)]; exact hb'
+  refine ⟨a, b, ha, hb', ?_, monotoneAdj_get es hmono i a b ga gb, (monotoneAdj_bounds es hmono (i + 1) b gb).2⟩
+  have := (monotoneAdj_bounds es hmono i a ga).1
+  omega
+
+theorem buildTree_fields (c : ArrayData) :
+    (buildTree c).type = c.type ∧ (buildTree c).len = c.len ∧ (buildTree c).nulls = builtNulls c := by
+  cases c; simp [buildTree, builtNulls]
 
 
 end ArrowModel.C09
